@@ -38,12 +38,87 @@ def jobs_for(tier):
         if 'enum' in t['feats'] and tier == 'thorough':
             jobs.append(dict(id='%s/der/numeric' % t['id'], template=t['id'], codec='der', tier=tier,
                              numeric_enums=True))
-    for k in ('length', 'tag'):
+    for k in ('length', 'tag', 'set-symbolic-tags'):
         jobs.append(dict(id='kernel/' + k, kernel=k, codec='der', tier=tier, numeric_enums=False))
     return jobs
 
 
+SET_TEXT = ('T DEFINITIONS IMPLICIT TAGS ::= BEGIN\nA ::= SET { a [1] INTEGER (0..7), b [2] BOOLEAN, c [3] NULL, '
+            'd [4] INTEGER (0..7) OPTIONAL }\nEND\n')
+CLASSES = ['CONTEXT', 'APPLICATION', 'PRIVATE']
+
+
+def make_set_tags(job):
+    """SET with SYMBOLIC tag numbers and classes: the real DER compiler sorts the components at
+    compile time from solver variables; the encoding must follow the canonical order of X.690 10.3
+    for every assignment of distinct tags (numbers < 2^21: one to four identifier octets)"""
+    import copy
+    base = asn1tools.parse_string(SET_TEXT)
+    top = (1 << 21) if job['tier'] == 'thorough' else (1 << 15)
+
+    def harness(ctx):
+        with shimmed(C.CODEC_MODS):
+            parsed = copy.deepcopy(base)
+            members = parsed['T']['types']['A']['members']
+            if job['tier'] == 'quick':
+                del members[3:]         # three components in the quick tier
+            tags = []
+            for i, m in enumerate(members):
+                cls = CLASSES[ctx.choose('class%d' % i, 2 if i < 2 else 3)]
+                num = ctx.int('tag%d' % i, 0, top)
+                m['tag'] = {'number': num, 'class': cls}
+                tags.append((cls, num))
+            for i in range(len(tags)):
+                for j in range(i):
+                    if tags[i][0] == tags[j][0]:
+                        ctx.assume(tags[i][1] != tags[j][1])
+            has_d = len(members) > 3 and ctx.flag('d?')
+            v = {'a': ctx.int('a', 0, 7), 'b': ctx.flag('b'), 'c': None}
+            if has_d:
+                v['d'] = ctx.int('d', 0, 7)
+            ctx.describe = lambda m: {'tags': [(c, (m.eval(n.e, model_completion=True).as_signed_long()
+                                                    if hasattr(n, 'e') else n)) for c, n in tags],
+                                      'value': jsonable(concretize(v, m))}
+            try:
+                spec = asn1tools.compile_dict(parsed, 'der')
+                enc = spec.types['A'].encode(v)
+            except Inconclusive:
+                raise
+            except Exception as e:
+                ctx.violation('kernel-raises', '%s: %s' % (type(e).__name__, str(e)[:100]))
+                return
+            ref = x690.DerModel(parsed, False).encode(v, 'A', 'T')
+            if len(ref) != len(enc):
+                ctx.violation('kernel-length', 'library %d octets, model %d' % (len(enc), len(ref)))
+                return
+            if ctx.prove('kernel-set-in-canonical-tag-order', SymBytes(enc) == ref):
+                ctx.note('kernel-proved')
+    return harness
+
+
+def replay_set_tags(v):
+    inp = v['witness']['inputs']
+    body = ', '.join('%s [%s%d] %s' % (n, '' if c == 'CONTEXT' else c + ' ', num, t) for (c, num), (n, t) in zip(
+        inp['tags'], [('a', 'INTEGER (0..7)'), ('b', 'BOOLEAN'), ('c', 'NULL'), ('d', 'INTEGER (0..7) OPTIONAL')]))
+    text = 'T DEFINITIONS IMPLICIT TAGS ::= BEGIN\nA ::= SET { %s }\nEND\n' % body
+    value = unjson(inp['value'])
+    spec = asn1tools.compile_string(text, 'der')
+    got = bytes(spec.encode('A', value))
+    eng = Engine()
+    Engine.cur = eng
+    try:
+        want = x690.DerModel(asn1tools.parse_string(text), False).encode(value, 'A', 'T').concrete(None)
+    finally:
+        Engine.cur = None
+    if got != want:
+        return True, 'SET { %s } value %r: library %s, X.690 10.3 order %s' % (body, value, got.hex(), want.hex())
+    return False, 'agrees with the model: %s' % got.hex()
+
+
 def make_kernel(job):
+    if job['kernel'] == 'set-symbolic-tags':
+        return make_set_tags(job)
+
     def harness(ctx):
         with shimmed(C.CODEC_MODS):
             if job['kernel'] == 'length':
@@ -127,6 +202,8 @@ def make_harness(job):
 def replay(v):
     job = v['job']
     if job.get('kernel'):
+        if job['kernel'] == 'set-symbolic-tags':
+            return replay_set_tags(v)
         inp = v['witness']['inputs']
         if job['kernel'] == 'length':
             got = bytes(C.ber.encode_length_definite(inp['n']))
